@@ -146,6 +146,8 @@ def _opt_pat_kind(p):
         return 'none'
     if k in ('Ref', 'Deref'):
         return _opt_pat_kind(p['ch'][0])
+    if k == 'Expr' and pat_src(p) in ('true', 'false'):
+        return pat_src(p)
     return None
 
 
@@ -182,12 +184,18 @@ def _tuple_match_rows(e, env):
     for vals in itertools.product((True, False), repeat=len(tested)):
         asg = dict(zip(tested, vals))
         for a, kinds, comps in arms:
-            if all(kinds[i] == 'any' or (kinds[i] == 'some') == asg[i] for i in tested):
+            if all(kinds[i] == 'any' or (kinds[i] in ('some', 'true')) == asg[i] for i in tested):
                 en = dict(env)
                 for i in range(n):
                     if comps[i] is not None:
                         pat_canon(comps[i], en, names[i])
-                conds = [('VALID(%s)' if asg[i] else '!VALID(%s)') % names[i] for i in tested]
+                boolc = {i for i in tested if any(k_[i] in ('true', 'false') for _, k_, _ in arms)}
+                conds = []
+                for i in tested:
+                    if i in boolc:
+                        conds.extend(conj(scr['ch'][i], dict(env), asg[i]))
+                    else:
+                        conds.append(('VALID(%s)' if asg[i] else '!VALID(%s)') % names[i])
                 rows.append((conds, a, en))
                 break
     return rows
@@ -260,6 +268,17 @@ def canon(e, env):
             parts = sorted(set(_neg(canon(x, env)) for x in flat(e, ('Or', 'BitOr'))))
             return '!(%s)' % ' && '.join(parts) if len(parts) > 1 else _neg(parts[0])
         a, b = canon(e['ch'][0], env), canon(e['ch'][1], env)
+        if op in ('==', '!='):
+            # comparison with a unit enum variant is a pattern test
+            for x_, y_, nx in ((a, b, peel(e['ch'][0])), (b, a, peel(e['ch'][1]))):
+                if nx.get('k') == 'Path' and nx.get('res') != 'local' and \
+                        re.fullmatch(r'(\w+::)+[A-Z]\w*', x_) and not x_.endswith(NULLS):
+                    p_ = '%s is %s' % (y_, x_)
+                    return p_ if op == '==' else _neg(p_)
+                if nx.get('k') == 'Call' and re.fullmatch(r'Some\((\w+::)+[A-Z]\w*\)', x_) and \
+                        peel(nx['ch'][1]).get('k') == 'Path' and peel(nx['ch'][1]).get('res') != 'local':
+                    p_ = '%s is %s' % (y_, x_)
+                    return p_ if op == '==' else '!' + p_
         if op in ('>', '>='):
             a, b, op = b, a, {'>': '<', '>=': '<='}[op]
         if op in ('==', '!=', '+', '*') and b < a:
@@ -384,10 +403,19 @@ def canon(e, env):
     return src(e)
 
 
+_ORD = ('Ordering::Equal', 'Ordering::Greater', 'Ordering::Less')
+
+
 def _neg(c):
     """negation of a canonical predicate string (comparisons are flipped, not prefixed)"""
     if c.startswith('!'):
         return c[1:]
+    m = re.fullmatch(r'(.+) is (Ordering::\w+(?: \| Ordering::\w+)*)', c)
+    if m and _balanced(m.group(1)):
+        # a test on std::cmp::Ordering: the negation is the complementary set of variants
+        rest = sorted(set(_ORD) - set(m.group(2).split(' | ')))
+        if rest:
+            return '%s is %s' % (m.group(1), ' | '.join(rest))
     m = re.fullmatch(r'\((.+) (<=|<) (.+)\)', c)
     if m and _balanced(m.group(1)) and _balanced(m.group(3)):
         a, op, b = m.group(1), m.group(2), m.group(3)
@@ -949,6 +977,19 @@ def guards_at(root, node, env=None):
         if k == 'Match' and try_operand(e) is None:
             if _contains(e['ch'][0], node):
                 return rec(e['ch'][0], en)
+            tr = _tuple_match_rows(e, en)
+            if tr is not None:
+                hit = [(c_, a, en2) for c_, a, en2 in tr if _contains(a['body'], node)]
+                if len(hit) == 1:
+                    conds.extend(hit[0][0])
+                    return rec(hit[0][1]['body'], hit[0][2])
+                if len(hit) > 1:
+                    # several validity assignments reach this arm: keep what they share
+                    common = set(hit[0][0])
+                    for c_, _, _ in hit[1:]:
+                        common &= set(c_)
+                    conds.extend(sorted(common))
+                    return rec(hit[0][1]['body'], hit[0][2])
             scr = canon(e['ch'][0], en)
             prior = []
             for a in e['arms']:
